@@ -237,12 +237,28 @@ pub fn special_replaced_profile() -> Profile {
     p
 }
 
+/// many semantic-after probes on the branches of one or two functions: several bodies get resolved
+/// at the same `end` (repeated br_table targets, several branches to one block)
+pub fn sa_dense_profile() -> Profile {
+    let mut p = Profile::base("semantic-after-dense");
+    p.min_local_funcs = 1;
+    p.max_local_funcs = 2;
+    p.max_imp_funcs = 1;
+    p.ops = w(&[("inject", 10)]);
+    p.modes = vec![Mode::SemanticAfter, Mode::SemanticAfter, Mode::SemanticAfter, Mode::SemanticAfter, Mode::BlockExit, Mode::Before];
+    p.mean_ops = 7;
+    p
+}
+
 pub fn iterate_profile() -> Profile {
     let mut p = Profile::base("iterate");
     p.max_local_funcs = 5;
     p.min_local_funcs = 0;
-    p.ops = w(&[("build_func", 3), ("add_import_func", 2), ("add_global", 1)]);
-    p.mean_ops = 1;
+    // histories that change which function IDs have a body (replaced imports keep their ID in the import
+    // range, converted locals lose their body; deleted functions are left out: whether the cursor visits the
+    // instructions of a function flagged as deleted is not stated by the property)
+    p.ops = w(&[("build_func", 3), ("add_import_func", 2), ("add_global", 1), ("replace_import", 3), ("convert_local_to_import", 2)]);
+    p.mean_ops = 2;
     p
 }
 
@@ -416,11 +432,11 @@ pub fn check_def(id: &str) -> Option<CheckDef> {
             hash_seeds: (4, 16),
             quick_runs: 40_000,
             thorough_runs: 400_000,
-            ..d("C04", vec![mixed_profile(), func_edit_profile(), types_profile(), special_profile()])
+            ..d("C04", vec![mixed_profile(), func_edit_profile(), types_profile(), special_profile(), sa_dense_profile()])
         },
         "C05" => CheckDef {
             reencode_tail: true,
-            ..d("C05", vec![mixed_profile(), func_edit_profile(), global_edit_profile(), memory_edit_profile(), special_profile(), region_profile()])
+            ..d("C05", vec![mixed_profile(), func_edit_profile(), global_edit_profile(), memory_edit_profile(), special_profile(), region_profile(), sa_dense_profile()])
         },
         "C06" => d("C06", vec![func_edit_profile()]),
         "C07" => d("C07", vec![global_edit_profile()]),
